@@ -39,11 +39,15 @@ CMAX = SHARD.get("cmax", 40)
 MARK = b"\x01"
 
 
+SFLAG = SHARD.get("sflag", 5)
+
+
 class FlagSerde:
-    """custom serde: values travel unchanged with flag 5, and come back tagged with the flags the server returned"""
+    """custom serde: values travel unchanged with flag SFLAG (5; 0 and 65535 in further shards), and come back tagged with
+    the flags the server returned"""
 
     def serialize(self, key, value):
-        return value, 5
+        return value, SFLAG
 
     def deserialize(self, key, value, flags):
         return (value, flags)
@@ -156,7 +160,7 @@ def h_value(value: bytes, c1: int) -> int:
         return viol(STORE, "returned", r)
     if net.violations:
         return viol(net.violations[0])
-    want = (value, 5) if serde is not None else value
+    want = (value, SFLAG) if serde is not None else value
     if got != want:
         return viol(STORE, "then", FETCH, "returned", got, "for stored value", value, "cut", c1, "recv", RECV)
     return ok("roundtrip")
@@ -278,18 +282,29 @@ SAMPLES = [b"", b"bytes\r\nEND\r\n", "text", "téxt€", 0, 7, -12, 2 ** 70, Tru
            b"x" * 5000, "y" * 500, list(range(300))]
 
 
+class TextSerde:
+    def serialize(self, key, value):
+        return ("i%d" % value if isinstance(value, int) else "s" + value).encode("utf8"), 0
+
+    def deserialize(self, key, value, flags):
+        text = value.decode("utf8")
+        return int(text[1:]) if text[:1] == "i" else text[1:]
+
+
 def h_serde(i: int, which: int, proto: int, thr: int) -> int:
     """
     pre: 0 <= i < len(SAMPLES)
-    pre: 0 <= which <= 3
+    pre: 0 <= which <= 5
     pre: 0 <= proto <= 5
     pre: 0 <= thr <= 3
     post: _ != 0
     """
     i = concretize(i, 0, len(SAMPLES) - 1)
-    which = concretize(which, 0, 3)
+    which = concretize(which, 0, 5)
     proto = concretize(proto, 0, 5)
     thr = (0, 1, 10, 400)[concretize(thr, 0, 3)]
+    if which >= 4 and (proto != 0 or thr != 0):
+        return skip("custom-serdes-take-no-protocol-or-threshold")
     with notrace():
         return _serde_concrete(SAMPLES[i], which, proto, thr)
 
@@ -310,11 +325,23 @@ def _serde_concrete(v, which, proto, thr):
         c = ops.make_client(STACK, net, default_noreply=False,
                             serde=S.CompressedSerde(serde=S.PickleSerde(pickle_version=proto), min_compress_len=thr))
         want = v
-    else:
+    elif which == 3:
         import bz2
         c = ops.make_client(STACK, net, default_noreply=False,
                             serde=S.CompressedSerde(compress=bz2.compress, decompress=bz2.decompress, min_compress_len=thr))
         want = v
+    elif which == 4:
+        # a caller-supplied serde that stores text with flags 0 (as a JSON serde does): the deserializer must still run
+        if not isinstance(v, (str, int)) or isinstance(v, bool):
+            return skip("text-serde-takes-str-and-int")
+        c = ops.make_client(STACK, net, default_noreply=False, serde=TextSerde())
+        want = v
+    else:
+        # the legacy function pair: only a deserializer, flags 0 on the wire
+        if not isinstance(v, bytes):
+            return skip("bytes-only")
+        c = ops.make_client(STACK, net, default_noreply=False, deserializer=lambda key, value, flags: (b"seen", value, flags))
+        want = (b"seen", v, 0)
     if "C15-compressed-int" in load_known("C15") and which in (2, 3) and type(v) is int:
         return skip("known-finding-region(C15)")
     net.begin_call(1)
@@ -358,6 +385,9 @@ def shards(tier):
                     out.append(dict(fn="h_value", timeout=T, shard=dict(store=s, fetch=f, vl=vl, recv=recv, cmin=lo, cmax=hi)))
     out.append(dict(fn="h_value", timeout=T, shard=dict(store="set", fetch="get", vl=3, recv=4, prefix="pf:")))
     out.append(dict(fn="h_value", timeout=T, shard=dict(store="set", fetch="get", vl=3, recv=4096, serde="flag")))
+    out.append(dict(fn="h_value", timeout=T, shard=dict(store="set", fetch="get", vl=2, recv=4096, serde="flag", sflag=0)))
+    out.append(dict(fn="h_value", timeout=T, shard=dict(store="set_many", fetch="get_many", vl=2, recv=4096, serde="flag", sflag=65535,
+                                                        cmin=0, cmax=20)))
     out.append(dict(fn="h_value", timeout=T, shard=dict(store="set_many", fetch="get", vl=2, recv=4096, stack="pooled1")))
     out.append(dict(fn="h_value", timeout=T, shard=dict(store="set", fetch="get", vl=2, recv=4096, stack="hash2")))
     for st in ("client", "pooled1", "hash2"):
@@ -373,11 +403,11 @@ def shards(tier):
 BOUNDS = {
     "quick": "values of 0, 2, 3, 5 symbolic bytes (every content) stored by set/set_many/cas/add/replace and fetched by "
              "get/get_many/gets/gat/gets_many/gats (6 pairings), one symbolic cut in 0..40, receive size 4096 and 4 (so values "
-             "straddle one and two receive sizes), with a key prefix, a flag-carrying custom serde, PooledClient and "
+             "straddle one and two receive sizes), with a key prefix, a flag-carrying custom serde (flags 5, 0, 65535), PooledClient and "
              "HashClient(2); key remapping: 7-key corpus (str, bytes, non-ASCII, 250 bytes, control bytes, 'a' and b'a'), "
              "symbolic asked subset of 5 of them x 5 present-set modes, 6 collection kinds, prefix on/off, get_many and "
              "gets_many, 3 stacks; "
-             "serdes: 16 representative values x {no serde, pickle protocol 0..5, compressed(pickle) and compressed(bz2) with "
+             "serdes: 16 representative values x {no serde, pickle protocol 0..5, compressed(pickle), compressed(bz2), a custom text serde storing with flags 0, a legacy deserializer function; with "
              "thresholds 0/1/10/400}",
     "thorough": "all 30 store x fetch pairings, values 0..6 and 8 bytes, receive size 4 everywhere",
 }
